@@ -32,11 +32,11 @@ pub const CANONICAL_NAN_BITS: u32 = 0x7FC0_0000;
 #[derive(Debug, Clone)]
 pub struct Defs {
     regs: IdMap<(LanguageKey, RegId), RegData>,
-    instrs: IdMap<(LanguageKey, raw::Opcode), InsData>,
+    instrs: IndexMap<(LanguageKey, raw::Opcode), InsData>,
 
     vars: IdMap<DefId, VarData>,
-    funcs: IdMap<DefId, FuncData>,
-    enums: IdMap<Ident, EnumData>,
+    funcs: IndexMap<DefId, FuncData>,
+    enums: IndexMap<Ident, EnumData>,
 
     /// Preferred alias (i.e. the one we decompile to) for each register.
     reg_aliases: IdMap<(LanguageKey, RegId), DefId>,
@@ -301,7 +301,7 @@ impl CompilerContext<'_> {
 
     /// Declare an enum.  This may be done multiple times.
     pub fn declare_enum(&mut self, ident: Sp<Ident>, ty: ScalarType) -> Result<(), ConflictingEnumTypeError> {
-        use std::collections::hash_map::Entry;
+        use indexmap::map::Entry;
 
         let source = EnumDeclSource::User(ident.span);
 
